@@ -26,11 +26,12 @@ ASSUME = ['memory model (DESIGN 3.3): all atomics of the protocol are SeqCst exc
 
 def run(ctx):
     ctx.trusted_base, ctx.assumptions = TB, ASSUME
-    if not ctx.harness(['ls_iter', 'ls_addsig', 'sh_probe']):
+    if not ctx.harness(['ls_iter', 'ls_addsig', 'p_nested_iter', 'sh_probe']):
         return
     ctx.translate(COMPONENTS)
     ctx.prove('props/C10.v')
     L.lockstep(ctx, [L.mon_c10], ['c10'], with_raw=True)
+    L.instr_sweep(ctx, L.C10_KINDS)
     c12.concurrent_add(ctx, 'records')
     # the info-carrying exfiltrators pass every record through a Channel: "each delivery yields at most
     # one record, a faithful copy, in delivery order" composes with C06 (FIFO, nothing invented or
@@ -44,6 +45,8 @@ def run(ctx):
     LC.nested_sweep(ctx, ('outcome', 'panic', 'drops'))
     ctx.coverage['rule_concurrent_add'] = ('two add_signal calls on clones of one handle, every pause point of one against the other (deterministic scheduler), '
                                            'same and different signals, SignalOnly and WithRawSiginfo: one delivery afterwards runs one action and yields one record')
+    ctx.coverage['rule_instruction_sweep'] = ('one more delivery (real handler, sigqueue) at every instruction boundary of pending() / wait() / forever().next(), '
+                                              'SignalOnly and WithRawSiginfo, 23 configurations of earlier deliveries incl. bursts longer than the buffer; fork per boundary')
     ctx.coverage['rule'] = ('SignalOnly lock-step scenarios (deliveries landing in the middle of a scan, several live batches, add_signal) + WithRawSiginfo bursts of 3-8 deliveries (longer than the 5-slot channel) under '
                             'sequential and random schedules; monitors on the real traces: yields vs the delivery log (count per signal <= deliveries begun at that instant, watched numbers only), '
                             'siginfo records compared word by word with the delivered ones (all 32 words derive from a marker), each at most once, per-signal order consistent with non-overlapping deliveries')
@@ -52,6 +55,8 @@ def run(ctx):
 def replay(ctx, path):
     case = json.load(open(path))
     sc = case.get('case', {}).get('scenario')
+    if case.get('case', {}).get('instr_sweep'):
+        return L.instr_replay(ctx, case['case'], L.C10_KINDS)
     if case.get('case', {}).get('nested') or (sc and sc.get('system') == 'channel'):
         import ls_channel as LC
         return LC.replay_case(ctx, path, [LC.mon_c06, LC.mon_c07])
